@@ -215,6 +215,9 @@ func (m *Once) auditFresh(c *vnet.Cluster, n *vnet.Node) {
 		bad("block objects retained")
 	}
 	f := d.VerifFlags()
+	if f.Recovering {
+		bad("the recovery-in-progress flag of an earlier call is still set (it changes the timers of the new height)")
+	}
 	if f.BlockProcessed || f.PreBlockProcessed || f.TxSubscriptionOn {
 		bad(fmt.Sprintf("flags retained: %+v", f))
 	}
